@@ -37,6 +37,13 @@ func c04Round3Gates(n, t int) *c04Round3 {
 	r := &c04Round3{n: n}
 	r.e = c04Setup(n, t)
 	r.inRound3 = vs.Bool("group_in_round_3")
+	r.msgGroup = 1
+	if r.inRound3 && vs.Bool("unknown_group") {
+		r.msgGroup = 3
+	}
+	// full product for the existing group in ROUND_3, a representative family otherwise (any member id with the
+	// matching sender; member 1 has done nothing / confirmed / complained)
+	full := r.inRound3 && r.msgGroup == 1
 	r.dealers = make([]c04Dealer, n)
 	for m := range r.dealers {
 		r.dealers[m] = c04NewDealer(t)
@@ -44,23 +51,21 @@ func c04Round3Gates(n, t int) *c04Round3 {
 	r.state = make([]int, n)
 	r.malicious = make([]bool, n)
 	for m := 0; m < n; m++ {
-		r.state[m] = vs.Pick("round3_progress", 3)
+		if full || m == 0 {
+			r.state[m] = vs.Pick("round3_progress", 3)
+		}
 		if r.state[m] != c04r3None {
 			r.nDone++
 		}
 		r.malicious[m] = vs.Bool("already_malicious")
 	}
-	r.msgGroup = 1
-	if vs.Bool("unknown_group") {
-		r.msgGroup = 3
-	}
 	r.mid = tss.MemberID(vs.Pick("msg_member_id", n+2))
-	r.senderIdx = vs.Pick("sender", n+1)
-	if r.msgGroup != 1 {
-		// one representative addressing is enough for the unknown-group rejection
-		vs.Assume(r.mid == 1 && r.senderIdx == 0 && r.inRound3)
-	}
 	r.isMember = r.mid >= 1 && int(r.mid) <= n
+	if full {
+		r.senderIdx = vs.Pick("sender", n+1)
+	} else if r.isMember {
+		r.senderIdx = int(r.mid) - 1
+	}
 	r.gateOK = r.msgGroup == 1 && r.inRound3 && r.isMember && r.senderIdx == int(r.mid)-1 && r.state[int(r.mid)-1] == c04r3None
 	return r
 }
